@@ -2,6 +2,7 @@ package util
 
 import (
 	"encoding/binary"
+	"strings"
 	"unsafe"
 
 	"github.com/relex/gotils/logger"
@@ -45,6 +46,17 @@ func AppendMergedKey(buf []byte, keys []string) []byte {
 		buf = append(buf, key...)
 	}
 	return buf
+}
+
+// ValidUTF8Strings returns a copy of the list in which invalid UTF-8 byte sequences are replaced by U+FFFD
+//
+// To be used wherever log field values become Prometheus label values, which are rejected with panic if not valid UTF-8
+func ValidUTF8Strings(strList []string) []string {
+	destList := make([]string, len(strList))
+	for i, str := range strList {
+		destList[i] = strings.ToValidUTF8(str, "\uFFFD")
+	}
+	return destList
 }
 
 // MutableString is a string backed by raw []byte, instead of in the immutable memory area like normal Go strings.
